@@ -45,6 +45,7 @@ type vMethod struct {
 	addsErr   bool
 	empty     bool
 	setsRoot  bool
+	unsupCall bool // a top-level statement of the body is s.newUnsupportedRuleError(...)
 	actions   []vAction
 }
 
@@ -753,7 +754,17 @@ func visitorFacts(repo string, w *strings.Builder) error {
 				return true
 			})
 		}
-		methods = append(methods, vMethod{typ: rt, name: fd.Name.Name, rule: r, enter: strings.HasPrefix(fd.Name.Name, "Enter"),
+		unsupCall := false
+		for _, st := range fd.Body.List {
+			if es, ok := st.(*ast.ExprStmt); ok {
+				if c, ok := es.X.(*ast.CallExpr); ok {
+					if sel, ok := c.Fun.(*ast.SelectorExpr); ok && sel.Sel.Name == "newUnsupportedRuleError" {
+						unsupCall = true
+					}
+				}
+			}
+		}
+		methods = append(methods, vMethod{typ: rt, name: fd.Name.Name, rule: r, enter: strings.HasPrefix(fd.Name.Name, "Enter"), unsupCall: unsupCall,
 			addsErr: callsNamed(fd.Body, "AddErrors") || callsNamed(fd.Body, "newUnsupportedRuleError"),
 			empty:   len(fd.Body.List) == 0, setsRoot: setsRoot, actions: acts})
 	}
@@ -962,6 +973,13 @@ func visitorFacts(repo string, w *strings.Builder) error {
 	emitMeth("enterMethods", true)
 	fmt.Fprintln(w, "/-- the same for every ExitOC_<rule> -/")
 	emitMeth("exitMethods", false)
+	var up []string
+	for _, m := range methods {
+		if m.enter && m.unsupCall && m.typ != "BaseVisitor" {
+			up = append(up, fmt.Sprintf("(%d, %d)", typeIdx[m.typ], m.rule))
+		}
+	}
+	fmt.Fprintf(w, "/-- (receiver type, rule) of every EnterOC_<rule> of a visitor OTHER than BaseVisitor whose body unconditionally calls newUnsupportedRuleError -/\ndef unsupMethods : List (Nat × Nat) := [%s]\n", strings.Join(up, ", "))
 	// token table
 	sort.Slice(lexerToks, func(i, j int) bool { return lexerToks[i].n < lexerToks[j].n })
 	var tk []string
